@@ -39,7 +39,7 @@ ASSUMPTIONS = ["values are compared numerically after JSON parsing (a lookup can
                "clause (iii) uses the closed-form template reference with relative tolerance 1e-9",
                "stream-steps comes last in a partition (it runs to the stop time)"]
 FAULT_KINDS = []
-PROBES = ["decimal_dt", "fractional_start", "mixed_partition", "per_step_settings", "equation_subset_without_dependencies", "two_scenarios_different_runspecs",
+PROBES = ["earlier_session_not_ended", "decimal_dt", "fractional_start", "mixed_partition", "per_step_settings", "equation_subset_without_dependencies", "two_scenarios_different_runspecs",
           "stream_in_partition", "points_step_setting", "runspecs_in_session_settings", "flat_results_requested", "two_scenarios_in_one_session", "scenario_level_constants"]
 EXHAUSTIVE = {"quick": False, "thorough": False}
 
@@ -121,6 +121,10 @@ def generate(spec):
     if rng.random() < 0.35:
         # a sibling scenario of the same manager takes part in the same session; step settings address only the first one
         case["twin"] = {"constants": {c: rng.choice([0.25, 1.0, 4.0]) for c in rng.sample(T.CONSTANTS[template], 1)}}
+    if rng.random() < 0.3:
+        # an earlier, plain session on the same object that is stepped to the end, asked for its results and never ended:
+        # nothing of it may show in the session under test
+        case["prior_session"] = {"flat": rng.random() < 0.5}
     if rng.random() < 0.25 and not case.get("twin"):
         # the session itself re-parameterises the scenario's run specs (begin_session settings)
         d3 = rng.choice([x for x in [1.0, 0.5, 0.25, 0.2] if x != dt])
@@ -302,6 +306,14 @@ def session_channel(case, res, log, want, ref):
     scns = [SCN, "twin"] if case.get("twin") else [SCN]
     if case.get("twin"):
         res.probe("two_scenarios_in_one_session")
+    if case.get("prior_session"):
+        res.probe("earlier_session_not_ended")
+        b.begin_session(scenarios=list(scns), scenario_managers=[MGR], equations=list(eqs), starttime=cfg["start"])
+        for _ in range(len(dec_grid(cfg)) + 2):
+            o_ = b.run_step()
+            if o_ is None or "msg" in o_:
+                break
+        b.session_results(index_by_time=False, flat=case["prior_session"]["flat"])
     if case.get("begin_runspecs"):
         res.probe("runspecs_in_session_settings")
         b.begin_session(scenarios=list(scns), scenario_managers=[MGR], equations=list(eqs), settings=begin_settings(case))
@@ -404,6 +416,10 @@ def rest_channel(case, res, log, want, ref):
         r = w.post("/start-instance", {"timeout": {"hours": 1}})
         iid = r.body["instance_uuid"]
         body = {"scenario_managers": [MGR], "scenarios": [SCN], "equations": list(eqs)}
+        if case.get("prior_session"):
+            w.post("/%s/begin-session" % iid, dict(body))
+            w.stream("/%s/stream-steps" % iid, {"settings": {}})
+            w.get("/%s/%ssession-results" % (iid, "flat-" if case["prior_session"]["flat"] else ""))
         if case.get("begin_runspecs"):
             body["settings"] = begin_settings(case)
             grid = dec_grid(session_cfg(case))
